@@ -61,6 +61,7 @@ def get_client_contract(E, st, args, kwargs, selfv, site):
             node = ev.val.t
             C = s.heap[f["clients"].ref]
             _g_set(s, j, routed=z3.BoolVal(True), node=node)
+            s.ghost["last_route"] = (route, inner, node)
             outs.append(Outcome("return", s, TupleV([HClientV(z3.Select(C["cid"], node)), inner])))
     return outs
 
@@ -284,6 +285,9 @@ def _havoc_failover(st, me):
     D["mem"], D["dtime"], D["keys"], D["n"] = AP("D", Py, B), AP("dt", Py, hm.Rl), AP("dk", I, Py), z3.Int(fresh_name("nd"))
     R["mem"] = AP("R", S, B)
     R["gen"] = R["gen"] + 1000
+    # FW is re-established at every exit of _safely_run_func / _safely_run_set_many (C13: FW@return / FW@raise obligations)
+    for _l, g in hm.wf_hash(st, me):
+        st.assume(g)
 
 
 def safely_run_havoc_contract(E, st, args, kwargs, selfv, site):
@@ -620,3 +624,68 @@ def verify_hash_ctor(E, prop="C16"):
             E.contracts.pop(qn, None)
         E.hooks.pop("time.time", None)
     E.case_suffix = ""
+
+
+def verify_hash_delete_many(E, prop="C12"):
+    """HashClient.delete_many(keys, *args, **kwargs): for every key of the collection, in order, one single-key delete through
+    the same route as HashClient.delete - validated routing key, one placement lookup, at most one inner `delete` on the client
+    of the placed node with the stripped key and the caller's arguments -; returns True."""
+    q = H + ".delete_many"
+    E.contracts[H + "._get_client"] = get_client_contract
+    E.contracts[H + "._safely_run_func"] = safely_run_havoc_contract
+    E.inline |= {H + "._run_cmd"}
+    T = lambda b: z3.BoolVal(bool(b))
+    pre = "%s/%s" % (prop, short(q))
+    for ign in (False, True):
+        E.case_suffix = "/ignore_exc=%s" % ign
+        st, me = hm.setup(E, ign)
+        f = st.heap[me.ref]
+        n = z3.Int("n_keys")
+        st.assume(n >= 0)
+        coll, stripped, route, _VAL = _mk_keys(st, n, False)
+        extra, kwv = OpaqueV(z3.Const("extra_arg", Py)), OpaqueV(z3.Const("extra_kw", Py))
+        base_oracle = hm.oracle("exception")
+
+        def inner_call(E_, s, client, name, args, kwargs):
+            lr = s.ghost.get("last_route")
+            j = s.ghost.get("loop_index")
+            ok_shape = (name == "delete" and lr is not None and j is not None and len(args) == 2 and args[0] is lr[1] and args[1] is extra
+                        and list(kwargs) == ["kw"] and kwargs["kw"] is kwv and not s.ghost.get("inner_calls"))
+            C = s.heap[f["clients"].ref]
+            goal = z3.And(T(ok_shape), client.t == z3.Select(C["cid"], lr[2]), E_.inject(lr[1], s) == stripped(j)) if ok_shape else T(False)
+            E.oblige("%s/key-by-key:one-delete-on-the-client-of-the-placed-node-with-the-stripped-key-and-the-caller's-arguments%s" % (pre, E.case_suffix),
+                     s, goal, func=q, meta={"called": name})
+            return base_oracle(E_, s, client, name, args, kwargs)
+        st.ghost["inner_call"] = inner_call
+
+        def havoc(E_, s):
+            _havoc_failover(s, me)
+            C = s.heap[f["clients"].ref]
+            C["mem"], C["cid"] = AP("C", S, B), AP("cid", S, I)
+            s.ghost["inner_calls"] = []
+            s.ghost.pop("last_route", None)
+            s.ghost.pop("inner_exc", None)
+            return [s]
+
+        def inv(E_, s, i):
+            parts = []
+            if E_.inv_mode == "prove":
+                parts.append(("at-most-one-inner-call-per-key", T(len(s.ghost.get("inner_calls", [])) <= 1)))
+            for label, gl in hm.wf_hash(s, me):
+                if label in ("nodes-have-clients", "client-table-is-keyed-by-the-client's-own-server"):
+                    parts.append(("FW:" + label, gl))
+            return parts
+        E.loop_specs[(q, 0)] = LoopSpec(inv, shape="for $0 in $1", havoc=havoc)
+        for o in E.run_function(q, st, [coll, extra], {"kw": kwv}, selfv=me):
+            s = o.st
+            if o.kind == "raise":
+                inner_exc = s.ghost.get("inner_exc")
+                own = inner_exc is not None and o.val.t.eq(inner_exc.t)
+                cls = o.val.cls
+                E.oblige("%s/post@raise(only-an-input-error,or-without-ignore_exc-the-server's-own-error-or-'all-servers-down')%s" % (pre, E.case_suffix), s,
+                         T(cls == "MemcacheIllegalInputError" or (not ign and (own or cls == "MemcacheError"))), func=q, meta={"raised": cls})
+                continue
+            E.oblige("%s/post@ret(True)%s" % (pre, E.case_suffix), s, T(isinstance(o.val, BoolV) and z3.is_true(z3.simplify(o.val.t))), func=q)
+    E.case_suffix = ""
+    for qn in ("._get_client", "._safely_run_func"):
+        E.contracts.pop(H + qn, None)
